@@ -120,7 +120,8 @@ CLAIMED.update({
                 "(coalescing; the current-hole pointer stays 0 or a hole inside the used arena) are under contract in the thorough tier "
                 "(400-700 s each). requestChunk of the array+grid manager (quick tier) and of the original grid (thorough tier): the hole handed out is large enough for the request, "
                 "the huge / large list is re-filed with the new maximum, a link is never read from a hole after it was re-filed - with the shape of the hole index assumed. "
-                "The heap manager's requestChunk and the malloc style are not covered.",
+                "The heap manager's requestChunk (thorough tier): the chunk comes from the current hole, the heap root or fresh space and the current-hole pointer stays valid. "
+                "The malloc style is not covered.",
         "note": COMMON_NOTE + " In recycleChunk the hole index / heap maintenance is an assumed stub: it writes only pointer slots inside holes.",
         "design_ref": "DESIGN.md 4 U-mm",
     },
